@@ -689,6 +689,7 @@ fn exec_op(w: &Rc<World>, op: &str, _in_cb: bool) {
             let k = num(1);
             if let Some(p) = w.plans.borrow().get(&k) {
                 let mut p = p.borrow_mut();
+                p.rollback = true; // every plan line is complete: `rb=0` must be repeated to stay in force
                 for kv in &t[2..] {
                     let (key, val) = kv.split_once('=').unwrap_or((kv, "-"));
                     let v: Option<usize> = val.parse().ok();
